@@ -154,11 +154,12 @@ class FractionScalar(AbstractValueWithQuantityObject):
 
         # convert the number
         result = FractionValue(number=converted_number)
-        # convert fraction's numerator
+        # convert fraction's numerator (only the scale between the units applies to it: if the
+        # conversion has an offset it was already added to the number part)
         if fraction_value.GetFraction() is not None:
             converted_numerator = convert_to_quantity.ConvertScalarValue(
                 fraction_value.GetFraction().numerator, to_unit
-            )
+            ) - convert_to_quantity.ConvertScalarValue(0.0, to_unit)
 
             converted_fraction = copy.copy(fraction_value.GetFraction())
             converted_fraction.numerator = converted_numerator
